@@ -5,6 +5,6 @@
 here="$(cd "$(dirname "$0")" && pwd)"
 export GOFLAGS=-mod=mod GOPROXY=off VERIF_ROOT="$here"
 if [ ! -x "$here/bin/gosym" ] || [ -n "$(find "$here/engine" -name '*.go' -newer "$here/bin/gosym" 2>/dev/null | head -1)" ]; then
-  sh "$here/setup.sh" >/dev/null || { echo "INCONCLUSIVE: engine build failed"; exit 2; }
+  VERIF_SKIP_SELFTEST=1 sh "$here/setup.sh" >/dev/null || { echo "INCONCLUSIVE: engine build failed"; exit 2; }
 fi
 exec "$here/bin/gosym" check --property "$1" --tier "${2:-quick}"
